@@ -56,13 +56,25 @@ MANIFEST = dict(
                 "which a fully-ready callback is the identity is not connecting, has both buffers empty, nothing to read and every "
                 "shut flag passed on), hence complete (C02_stuck_is_complete). The real loop's rest states are checked against exactly "
                 "that hypothesis on every run: at quiescence every listed handler gets one fully-ready callback and nothing may change. "
+                "BOUNDED WORK is a theorem too: a weighted count of what is still to do (bytes unread at an endpoint 8, buffered for "
+                "the tunnel 6, in a frame 3, buffered for a socket 2; chunks, frames, flags still to be set, handlers still "
+                "registered) never increases along the loop's own moves and strictly decreases on every move that changes anything - "
+                "a callback of any handler with any socket behaviour and any fault, pre_select, a frame delivery in either "
+                "direction, dropping finished handlers (loop_step_dec, from callback_dec proved stage by stage) - so from ANY world a "
+                "sequence of loop moves that each change something is at most worldMu(w) long (C02_bounded_work, "
+                "C02_measure_monotone); with C02_no_stuck_state: once the endpoints have stopped writing, the loop reaches, within "
+                "that many effective moves, a state that is complete. "
                 "The model is replayed against the real classes on every run with close-order scenarios; teardown within "
-                "bounded work and absence of stuck states are checked on the real code by the real-loop drain oracle (real ssnet.runonce "
+                "bounded work and absence of stuck states are ALSO checked on the real code by the real-loop drain oracle (real ssnet.runonce "
                 "passes with the environment's actual readiness)."),
-    level_note=("Trusted: as C01. Liveness (teardown within bounded work, no stuck state under a fair schedule) is decided on the "
-                "real code by the fair-drain oracle for the generated schedules, not by a theorem; that the real loop's quiescent "
-                "states satisfy Quiet is checked on every run (on the real objects and on the model state), not proved."),
-    technique="Lean 4 proof (invariants over all schedules) + differential replay + fair-drain oracle on the real classes",
+    level_note=("Trusted: as C01. Liveness is proved over the model as: no stuck state (C02_no_stuck_state), per-handler progress "
+                "(C02_wakeup_*), and bounded work (C02_bounded_work: every effective move of the loop uses up some of a finite "
+                "measure). What remains outside the theorems is the scheduler itself: that the real select loop actually makes an "
+                "effective move whenever one exists (select reports the readiness pre_select asked for; the loop gives every handler "
+                "its callback) - that is what the real-loop drain oracle decides on the real code for the generated schedules, "
+                "together with 'the real loop's rest states are fixpoints of fully-ready callbacks and satisfy Quiet', checked on "
+                "every run on the real objects and on the model state."),
+    technique="Lean 4 proof (invariants over all schedules, progress, termination measure) + differential replay + real-loop drain oracle on the real classes",
 )
 
 
